@@ -115,3 +115,57 @@ func VXStub_plugins_Load(p *plugins, paths []string) (Program, error) {
 	vx.Assert(ok, "the first matching plugin is the one with the longest matching prefix")
 	return vxProgram{}, nil
 }
+
+// ----- C08: the order in which generators emit functions does not depend on map iteration order -----
+
+type vxLogGen struct {
+	TypesMap
+	id        int
+	remaining *int // work left in the whole package (shared, so that loop bounds stay concrete)
+	log       *[]int
+}
+
+func (g *vxLogGen) Add(name string, typs []types.Type) (string, error) { return name, nil }
+func (g *vxLogGen) ToGenerate() [][]types.Type {
+	if *g.remaining > 0 {
+		return make([][]types.Type, 1)
+	}
+	return nil
+}
+func (g *vxLogGen) Done() bool { return *g.remaining == 0 }
+func (g *vxLogGen) Generate(typs []types.Type) error {
+	*g.log = append(*g.log, g.id)
+	*g.remaining--
+	return nil
+}
+
+// vxEmissionOrder runs the real pkg.Generate twice over the same plugins (each with an arbitrary amount of
+// pending work) and compares the order in which the generators are asked to emit.
+func vxEmissionOrder(n int) {
+	ids := []string{"p0", "p1", "p2", "p3"}
+	prefixes := []string{"deriveD", "deriveC", "deriveB", "deriveA"}
+	var logs [2][]int
+	for run := 0; run < 2; run++ {
+		ps := make([]Plugin, n)
+		gens := make(map[string]Generator, n)
+		remaining := n + 1
+		for i := 0; i < n; i++ {
+			ps[i] = NewPlugin(ids[i], prefixes[i], nil)
+			gens[ids[i]] = &vxLogGen{id: i, remaining: &remaining, log: &logs[run]}
+		}
+		sortPlugins(ps)
+		p := &pkg{plugins: ps, generators: gens}
+		_, err := p.Generate()
+		vx.Assert(err == nil, "generation succeeds")
+	}
+	same := len(logs[0]) == len(logs[1])
+	for i := 0; i < len(logs[0]) && i < len(logs[1]); i++ {
+		if logs[0][i] != logs[1][i] {
+			same = false
+		}
+	}
+	vx.Assert(same, "functions are emitted in the same order in both runs")
+}
+
+func VX_C08_emission_N2() { vxEmissionOrder(2) }
+func VX_C08_emission_N3() { vxEmissionOrder(3) }
